@@ -1238,16 +1238,26 @@ def meta_case(seed, index):
             differing[l] = {"slots": a, "dict": d}
     kinds = sorted(set(l.split(":")[0] for l in differing))
     ser = [k for k in kinds if k in ("copy", "deepcopy", "pickle", "hashkept")]
-    hooksS = sum(json.dumps(v["slots"]).count('["hook"') for v in differing.values())
-    hooksD = sum(json.dumps(v["dict"]).count('["hook"') for v in differing.values())
+    k6_active = False
+    if facts["k6_shape"] and cS.cls is not None and cD.cls is not None:
+        # the hooked base's generated __setattr__ is still what the slotted class resolves, while the dict
+        # build went back to object.__setattr__ ("slotted confused")
+        sa = cS.cls.__setattr__
+        k6_active = (sa is not object.__setattr__ and "__setattr__" not in cS.cls.__dict__
+                     and cD.cls.__setattr__ is object.__setattr__)
     sig = {"kind": "slots-dict-disagree", "differs": "+".join(k for k in kinds if k not in ser),
            "serialization_differs": bool(ser), "legacy_hash_false": facts["legacy_hash_false"],
-           "k6_shape": facts["k6_shape"], "extra_hook_events_in_slots_build": hooksS > hooksD,
-           "is_exception_class": bool(cS.cls is not None and issubclass(cS.cls, BaseException)),
-           "cache_hash_in_base": facts["cache_hash_in_base"]}
+           "k6_shape": facts["k6_shape"], "k6_base_setattr_kept_by_slots_build": k6_active,
+           "is_exception_class": bool(cS.cls is not None and issubclass(cS.cls, BaseException))}
     if "hash" in differing:
         sig["hash_slots"] = "+".join(sorted(set(map(str, differing["hash"]["slots"]["outcome"]))))
         sig["hash_dict"] = "+".join(sorted(set(map(str, differing["hash"]["dict"]["outcome"]))))
+    if k6_active:
+        # with the base's hooks still active even construction can differ: one signature for the family
+        sig["differs"] = sig["differs"] and "k6-downstream"
+        sig["serialization_differs"] = False
+        sig.pop("hash_slots", None)
+        sig.pop("hash_dict", None)
     seen = {"differing": differing, "labels": len(labels), "facts": {k: v for k, v in facts.items() if k != "spec"},
             "spec": facts.get("spec")}
     nfields = len(attr.fields(cS.cls)) if cS.cls is not None else 0
